@@ -659,7 +659,7 @@ class Interp:
                 return Var(norm(n["path"]))
             if dk in ("Fn", "AssocFn"):
                 return FnRef(n["path"])
-            if dk in ("Const", "AssocConst", "Static"):
+            if dk.startswith("Const") or dk.startswith("AssocConst") or dk.startswith("Static"):
                 f = self.F.fns.get(n["path"])
                 if f is not None and "body" in f:
                     return self.ev(f["body"], {})
@@ -1052,6 +1052,12 @@ class Interp:
             return recv.args[0]
         if name == "abs" and isinstance(recv, (int, float)) and not isinstance(recv, bool):
             return abs(recv)
+        if name == "powi" and isinstance(recv, (int, float)) and len(args) == 1 and isinstance(args[0], int):
+            return float(recv) ** args[0]
+        if name in ("is_nan",) and isinstance(recv, float):
+            return recv != recv
+        if name in ("is_finite",) and isinstance(recv, (int, float)):
+            return recv == recv and abs(recv) != float("inf")
         if name == "unwrap_or" and isinstance(recv, Var) and len(args) == 1:
             if recv.path in SOME_PATHS:
                 return recv.args[0]
